@@ -606,7 +606,7 @@ sds_read_f (SF_PRIVATE *psf, float *ptr, sf_count_t len)
 	if (psf->norm_float == SF_TRUE)
 		normfact = 1.0 / 0x80000000 ;
 	else
-		normfact = 1.0 / (1 << psds->bitwidth) ;
+		normfact = 1.0 / (1 << (32 - psds->bitwidth)) ;
 
 	iptr = ubuf.ibuf ;
 	bufferlen = ARRAY_LEN (ubuf.ibuf) ;
@@ -638,7 +638,7 @@ sds_read_d (SF_PRIVATE *psf, double *ptr, sf_count_t len)
 	if (psf->norm_double == SF_TRUE)
 		normfact = 1.0 / 0x80000000 ;
 	else
-		normfact = 1.0 / (1 << psds->bitwidth) ;
+		normfact = 1.0 / (1 << (32 - psds->bitwidth)) ;
 
 	iptr = ubuf.ibuf ;
 	bufferlen = ARRAY_LEN (ubuf.ibuf) ;
@@ -951,7 +951,7 @@ sds_write_f (SF_PRIVATE *psf, const float *ptr, sf_count_t len)
 	if (psf->norm_float == SF_TRUE)
 		normfact = 1.0 * 0x80000000 ;
 	else
-		normfact = 1.0 * (1 << psds->bitwidth) ;
+		normfact = 1.0 * (1 << (32 - psds->bitwidth)) ;
 
 	iptr = ubuf.ibuf ;
 	bufferlen = ARRAY_LEN (ubuf.ibuf) ;
@@ -984,7 +984,7 @@ sds_write_d (SF_PRIVATE *psf, const double *ptr, sf_count_t len)
 	if (psf->norm_double == SF_TRUE)
 		normfact = 1.0 * 0x80000000 ;
 	else
-		normfact = 1.0 * (1 << psds->bitwidth) ;
+		normfact = 1.0 * (1 << (32 - psds->bitwidth)) ;
 
 	iptr = ubuf.ibuf ;
 	bufferlen = ARRAY_LEN (ubuf.ibuf) ;
